@@ -1138,4 +1138,65 @@ theorem addBondTarget_sink {t : Topo} {a b o s : Bond} (h : addBondTarget t a b 
       rw [← h.2]; exact hx
     · simp only [hm, if_false] at h
       cases h
+theorem nodupB_iff (l : List Bond) : nodupB l = true ↔ l.Nodup := by
+  induction l with
+  | nil => simp [nodupB]
+  | cons a t ih =>
+    simp only [nodupB, Bool.and_eq_true, Bool.not_eq_true', List.nodup_cons, ih]
+    constructor
+    · rintro ⟨h1, h2⟩; exact ⟨by simpa using h1, h2⟩
+    · rintro ⟨h1, h2⟩; exact ⟨by simpa using h1, h2⟩
+
+theorem mem_expectedIin (t : Topo) (b : Bond) : b ∈ expectedIin t ↔ isIin t b := by
+  unfold expectedIin isIin
+  simp only [List.mem_append, List.mem_map, List.mem_range, List.mem_flatMap]
+  constructor
+  · rintro (⟨k, hk, rfl⟩ | ⟨⟨nm, p⟩, hm, i, hi, rfl⟩)
+    · exact Or.inl ⟨rfl, hk, rfl⟩
+    · right
+      have := List.mem_zipIdx_iff_getElem?.mp hm
+      simp at this
+      exact ⟨rfl, nm, this, hi⟩
+  · rintro (⟨h1, h2, h3⟩ | ⟨h1, nm, h2, h3⟩)
+    · left; refine ⟨b.res, h2, ?_⟩; cases b; simp_all
+    · right
+      refine ⟨(nm, b.res), ?_, b.ext, h3, ?_⟩
+      · apply List.mem_zipIdx_iff_getElem?.mpr; simpa using h2
+      · cases b; simp_all
+
+theorem mem_expectedIout (t : Topo) (b : Bond) : b ∈ expectedIout t ↔ isIout t b := by
+  unfold expectedIout isIout
+  simp only [List.mem_append, List.mem_map, List.mem_range, List.mem_flatMap]
+  constructor
+  · rintro (⟨k, hk, rfl⟩ | ⟨⟨nm, p⟩, hm, i, hi, rfl⟩)
+    · exact Or.inl ⟨rfl, hk, rfl⟩
+    · right
+      have := List.mem_zipIdx_iff_getElem?.mp hm
+      simp at this
+      exact ⟨rfl, nm, this, hi⟩
+  · rintro (⟨h1, h2, h3⟩ | ⟨h1, nm, h2, h3⟩)
+    · left; refine ⟨b.res, h2, ?_⟩; cases b; simp_all
+    · right
+      refine ⟨(nm, b.res), ?_, b.ext, h3, ?_⟩
+      · apply List.mem_zipIdx_iff_getElem?.mpr; simpa using h2
+      · cases b; simp_all
+
+/-- the executable well-formedness check used on the implementation's dumped states decides `WF` -/
+theorem wfB_iff (t : Topo) : wfB t = true ↔ WF t := by
+  unfold wfB
+  simp only [Bool.and_eq_true, beq_iff_eq, List.all_eq_true, nodupB_iff, List.contains_iff_mem,
+    mem_expectedIin, mem_expectedIout]
+  constructor
+  · rintro ⟨⟨⟨⟨⟨⟨⟨h1, h2⟩, h3⟩, h4⟩, h5⟩, h6⟩, h7⟩, h8⟩
+    refine ⟨h1, ?_, h3, h4, fun b => ⟨h5 b, h6 b⟩, fun b => ⟨h7 b, h8 b⟩⟩
+    intro j hj
+    have := h2 (some j) hj
+    simpa using this
+  · intro h
+    refine ⟨⟨⟨⟨⟨⟨⟨h.links_len, ?_⟩, h.iin_nodup⟩, h.iout_nodup⟩, fun b hb => (h.iin_mem b).mp hb⟩,
+      fun b hb => (h.iin_mem b).mpr hb⟩, fun b hb => (h.iout_mem b).mp hb⟩, fun b hb => (h.iout_mem b).mpr hb⟩
+    intro l hl
+    cases l with
+    | none => rfl
+    | some j => simpa using h.links_rng j hl
 end BMV.Topology
